@@ -125,9 +125,82 @@ pub fn emitted_vocabulary() -> &'static (Vec<String>, Vec<String>) {
                 }
             }
         }
+        // second- and third-order vocabulary: what the emitter calls its helpers once the USER already owns
+        // the first-choice names (`Node2`, `State2`, a companion derived from a second choice ...)
+        for _round in 0..2 {
+            let names: Vec<String> = upper.iter().filter(|n| !n.starts_with('_')).cloned().collect();
+            for chunk in names.chunks(10) {
+                if chunk.len() < 2 {
+                    continue;
+                }
+                let mut src = format!("start {}\n", chunk[0]);
+                src.push_str(&format!("struct {}({})\n", chunk[0], chunk[2..].iter().map(|n| format!("{n} ")).collect::<String>()));
+                for n in &chunk[2..] {
+                    src.push_str(&format!("struct {n}\n"));
+                }
+                src.push_str(&format!("terminal {} {{}}\n", chunk[1]));
+                if let (GenOutcome::Ok(text), _) = kside::generate(&src, 50_000_000) {
+                    if let Ok(toks) = skim::lex(&text) {
+                        for (t, _) in toks {
+                            if let skim::Tok::Ident(id) = t {
+                                if id.len() <= 40 && legal_upper(&id) && id.starts_with(|c: char| c.is_ascii_uppercase()) {
+                                    upper.insert(id);
+                                }
+                            }
+                        }
+                    }
+                }
+            }
+        }
         (upper.into_iter().collect(), lower.into_iter().collect())
     })
 }
+
+/// Systematic pairs: a harvested name that carries a digit (a second choice of the emitter) together with
+/// the same name without its digits, and with every other harvested name that shares its stem.
+fn vocabulary_family_case(k: usize) -> Option<(Model, Vec<(Role, String)>)> {
+    let v = emitted_vocabulary();
+    let derived: Vec<&String> = v.0.iter().filter(|n| n.chars().any(|c| c.is_ascii_digit())).collect();
+    if derived.is_empty() {
+        return None;
+    }
+    let d = derived[k % derived.len()];
+    let stem: String = d.chars().take_while(|c| !c.is_ascii_digit()).collect();
+    let mut family: Vec<String> = v.0.iter().filter(|n| n.starts_with(&stem) && n.len() <= stem.len() + 12).cloned().collect();
+    let base: String = d.chars().filter(|c| !c.is_ascii_digit()).collect();
+    if legal_upper(&base) && !family.contains(&base) {
+        family.push(base);
+    }
+    family.sort();
+    family.dedup();
+    if family.len() < 2 {
+        return None;
+    }
+    // a random subset (which members are present decides which second choices the emitter makes), in a
+    // random order (the first one names the terminal enum)
+    let mut srng = Rng::for_case(0x5eed, "vocabulary-family", k as u64);
+    srng.shuffle(&mut family);
+    let keep = srng.range(2, family.len().min(5));
+    family.truncate(keep);
+    let t = |used: bool| Field { sym: Sym::T(0), used, name: "x".into() };
+    let mut nts: Vec<Nt> = vec![];
+    for (i, n) in family.iter().enumerate().skip(1) {
+        nts.push(Nt {
+            name: n.clone(),
+            is_enum: i % 3 == 0,
+            prods: vec![Prod { name: "V".into(), style: if i % 2 == 0 { Style::Tuple } else { Style::Named }, fields: vec![t(i % 2 == 0)] }],
+            attrs: vec![],
+        });
+    }
+    // the start symbol uses all others
+    let fields: Vec<Field> = (1..nts.len() + 1).map(|i| Field { sym: Sym::N(i), used: true, name: format!("f{i}") }).collect();
+    nts.insert(0, Nt { name: "Start0".into(), is_enum: false, prods: vec![Prod { name: String::new(), style: Style::Named, fields }], attrs: vec![] });
+    let m = Model { nts, terms: vec![Term { name: "T".into(), ty: TypeExpr::Unit }], term_enum: family[0].clone(), term_attrs: vec![], start: 0, start_pos: 0, term_pos: 1 };
+    let placed = family.iter().map(|n| (Role::Nonterminal, n.clone())).collect();
+    Some((m, placed))
+}
+
+const N_VOCABULARY_FAMILIES: usize = 500;
 
 /// Numeric tails: what a "find the first free suffix" loop may meet (small, zero-padded, beyond u32 /
 /// u64 / u128, underscore-separated).
@@ -385,13 +458,20 @@ fn pair_case(k: usize) -> Option<(Model, Vec<(Role, String)>)> {
 }
 
 pub fn n_systematic() -> usize {
-    systematic_singles().len() + PAIR_FIELDS.len() * 60
+    systematic_singles().len() + PAIR_FIELDS.len() * 60 + N_VOCABULARY_FAMILIES
 }
 
 pub fn c05_case(seed: u64, idx: u64) -> Option<(Model, String, String, Vec<(Role, String)>, bool)> {
     let mut rng = Rng::for_case(seed, "compile-C05", idx);
     let singles = systematic_singles();
-    if (idx as usize) >= singles.len() && (idx as usize) < n_systematic() {
+    if (idx as usize) >= singles.len() + PAIR_FIELDS.len() * 60 && (idx as usize) < n_systematic() {
+        let (mut m, placed) = vocabulary_family_case(idx as usize - singles.len() - PAIR_FIELDS.len() * 60)?;
+        let defs = bare_payloads(&mut m, &mut rng);
+        let src = m.render();
+        let lib = format!("#![allow(warnings)]\n{defs}pub mod gen;\n");
+        return Some((m, src, lib, placed, true));
+    }
+    if (idx as usize) >= singles.len() && (idx as usize) < singles.len() + PAIR_FIELDS.len() * 60 {
         let (mut m, placed) = pair_case(idx as usize - singles.len())?;
         let defs = bare_payloads(&mut m, &mut rng);
         let src = m.render();
